@@ -5,6 +5,7 @@ import (
 	"encoding"
 	"encoding/json"
 	"reflect"
+	"unicode/utf8"
 	"unsafe"
 
 	"github.com/goccy/go-json/internal/errors"
@@ -242,6 +243,10 @@ func (d *interfaceDecoder) decodeStreamEmptyInterface(s *Stream, depth int64, p 
 				case '"':
 					literal := s.buf[start:s.cursor]
 					s.cursor++
+					if !utf8.Valid(literal) {
+						// like every other string destination: invalid UTF-8 becomes U+FFFD
+						literal = replaceInvalidUTF8(literal)
+					}
 					*(*interface{})(p) = string(literal)
 					return nil
 				case nul:
